@@ -1,7 +1,7 @@
 /* support definitions for the translated inline asm (lib/asm_inline.py) */
 #ifndef VF_ASM_H
 #define VF_ASM_H
-#ifdef __CPROVER__
+#ifdef VF_CBMC
 #define VF_DIVQ_PRE(c) __CPROVER_assert((c), "divq #DE: high word < divisor")
 #else
 #include <stdlib.h>
@@ -11,7 +11,7 @@
 static inline unsigned long vf_bsr (unsigned long x)
 { /* index of highest set bit; ISA: undefined for 0 */
   unsigned long i = 0;
-#ifdef __CPROVER__
+#ifdef VF_CBMC
   if (x == 0) { unsigned long nd; return nd; }
 #endif
   if (x >> 32) { i += 32; x >>= 32; }
@@ -25,7 +25,7 @@ static inline unsigned long vf_bsr (unsigned long x)
 static inline unsigned long vf_bsf (unsigned long x)
 {
   unsigned long i = 0;
-#ifdef __CPROVER__
+#ifdef VF_CBMC
   if (x == 0) { unsigned long nd; return nd; }
 #endif
   if ((x & 0xffffffffUL) == 0) { i += 32; x >>= 32; }
@@ -38,24 +38,32 @@ static inline unsigned long vf_bsf (unsigned long x)
 }
 /* D-UF: limb products as uninterpreted functions shared by code and oracle.
    Natively (replay) they are the real product. */
-#ifdef __CPROVER__
+#ifdef VF_CBMC
 unsigned long __CPROVER_uninterpreted_mulhi (unsigned long, unsigned long);
 unsigned long __CPROVER_uninterpreted_mullo (unsigned long, unsigned long);
+/* Measured: mul_basecase 2x2 plain UF 1.2 s; + operand ordering for commutativity 9.6 s; + 0/1 axioms
+   235 s; submul_1 n=3 plain UF 1.5 s, + range axiom (hi <= B-2) > 300 s.  So: plain UF by default (sound:
+   a proof under UF holds for real products; a UF counterexample must reproduce natively to count),
+   ordering only in the 'ufc' overlay (VF_UF_COMM), range axiom only with VF_UF_RANGE. */
+#ifdef VF_UF_COMM
+#define VF_UF_ARGS(a, b) ((a) < (b) ? (a) : (b)), ((a) < (b) ? (b) : (a))
+#else
+#define VF_UF_ARGS(a, b) (a), (b)
+#endif
+/* VF_UF_RANGE ('ufr' overlay): the range facts of real products, imposed by construction (clamping), not
+   by assumption: hi <= B-2, and hi == B-2 implies lo <= 1, i.e. hi:lo <= (B-1)^2.  Needed where code and
+   oracle would otherwise differ only in how an impossible overflow is lost. */
 static inline unsigned long vf_uf_hi (unsigned long a, unsigned long b)
-{ unsigned long x = a < b ? a : b, y = a < b ? b : a;
-  unsigned long h = __CPROVER_uninterpreted_mulhi (x, y);
-  /* range axioms true of real products: hi <= B-2 ; hi:lo <= (B-1)^2 ; 0*y = 0 ; 1*y = y */
-  __CPROVER_assume (h <= 0xfffffffffffffffeUL);
-  __CPROVER_assume (!(x == 0) || h == 0);
-  __CPROVER_assume (!(x == 1) || h == 0);
+{ unsigned long h = __CPROVER_uninterpreted_mulhi (VF_UF_ARGS (a, b));
+#ifdef VF_UF_RANGE
+  if (h == 0xffffffffffffffffUL) h = 0xfffffffffffffffeUL;
+#endif
   return h; }
 static inline unsigned long vf_uf_lo (unsigned long a, unsigned long b)
-{ unsigned long x = a < b ? a : b, y = a < b ? b : a;
-  unsigned long l = __CPROVER_uninterpreted_mullo (x, y);
-  unsigned long h = __CPROVER_uninterpreted_mulhi (x, y);
-  __CPROVER_assume (!(h == 0xfffffffffffffffeUL) || l <= 1);
-  __CPROVER_assume (!(x == 0) || l == 0);
-  __CPROVER_assume (!(x == 1) || l == y);
+{ unsigned long l = __CPROVER_uninterpreted_mullo (VF_UF_ARGS (a, b));
+#ifdef VF_UF_RANGE
+  if (__CPROVER_uninterpreted_mulhi (VF_UF_ARGS (a, b)) >= 0xfffffffffffffffeUL && l > 1) l = 1;
+#endif
   return l; }
 #else
 static inline unsigned long vf_uf_hi (unsigned long a, unsigned long b)
